@@ -49,6 +49,12 @@ StmtCons ==
        <<"comma-stmt", ExprS(Comma(Assign(X, "=", Bin("+", X, K(1))), Assign(X, "=", Bin("*", X, K(2)))))>>,
        <<"unknown-call-stmt", ExprS(Call("frobnicate", <<A>>))>>,
        <<"unknown-call0-stmt", ExprS(Call("frobnicate", <<>>))>>,
+       \* unknown functions whose names are prefixes / infixes of names the compiler treats specially
+       <<"unknown-call-f", ExprS(Call("f", <<A>>))>>,
+       <<"unknown-call-fat", ExprS(Call("fat", <<A>>))>>,
+       <<"unknown-call-tal", ExprS(Call("tal", <<A, X>>))>>,
+       <<"unknown-call-clz", ExprS(Call("clz", <<A>>))>>,
+       <<"unknown-call-store", ExprS(Call("MEM_STORE", <<A>>))>>,
        <<"prefix-stmt", ExprS(Prefix("++", X))>>,
        <<"index-assign", ExprS(Assign(Index(Var("arr"), K(1)), "=", A))>>,
        <<"member-assign", ExprS(Assign(Member(Var("s"), ".", "f"), "=", A))>>,
@@ -78,6 +84,10 @@ SuppCons ==
        <<"se-only-assign", SE(<< >>, Assign(X, "=", Bin("+", X, K(1))))>>,
        <<"se-list-compound", SE(<< Upd(X, 4), Upd(X, 5) >>, Assign(X, "+=", A))>>,
        <<"se-nested", SE(<< Upd(X, 4) >>, StmtExpr(<< Upd(X, 5) >>, Assign(X, "=", Bin("+", X, K(1)))))>>,
+       <<"se-list-nested", SE(<< Upd(X, 4), Upd(X, 5) >>, StmtExpr(<< Upd(X, 6), Upd(X, 7) >>, Assign(X, "=", Bin("+", X, K(1)))))>>,
+       \* a local variable named like an operation of the compiler (known finding KF-D9c)
+       <<"name-clash-branch", Block(<< Decl(S32, "branch", K(0)), If(Bin("&", A, K(1)), << Upd(X, 4) >>), Upd(X, 5) >>)>>,
+       <<"name-clash-op", Block(<< Decl(S32, "op_ADD", K(5)), Set(X, Bin("+", X, Var("op_ADD"))) >>)>>,
        <<"se-list-value", Set(A, StmtExpr(<< Upd(X, 4), Upd(X, 5) >>, Bin("+", X, K(1))))>>,
        <<"block-list", Block(<< Upd(X, 4), Set(Rx, K(3)), Upd(X, 5) >>)>>,
        <<"if-noelse-list", If(Bin("&", A, K(1)), << Upd(X, 4), Upd(X, 5), Upd(X, 6) >>)>>,
